@@ -300,7 +300,19 @@ def build_grid(inst):
         m[inst["u"]] = False
         mask = aa.Mask2D(mask=m.reshape(inst["h"], inst["w"]), pixel_scales=(inst["sy"] * tau, inst["sx"] * tau),
                          origin=(inst["oy"] * tau, inst["ox"] * tau))
-        return aa.Grid2D.from_mask(mask)
+        grid = aa.Grid2D.from_mask(mask)
+        if inst["api"] in ("reloc",) + STACKS:
+            # The comparison |p| < r_min must be decided exactly, so the pixel centres have to be ON the lattice, not one
+            # rounding error away from it (the library computes them through origin / pixel_scale, which is inexact for
+            # scales such as 0.75): where they are not, the same grid is built from the exact centres.
+            h, w = inst["h"], inst["w"]
+            ex = np.array([[(inst["oy"] + (h - 1 - 2 * (k // w)) * (inst["sy"] // 2)) * tau,
+                            (inst["ox"] + (2 * (k % w) - (w - 1)) * (inst["sx"] // 2)) * tau] for k in inst["u"]])
+            if np.max(np.abs(np.array(grid, dtype=float) - ex)) > 1e-9:
+                raise core.MachineryError(f"pixel centres of {inst} are not where the lattice puts them")
+            if not np.array_equal(np.array(grid, dtype=float), ex):
+                grid = aa.Grid2D(values=ex, mask=mask)
+        return grid
     if gk == "g1d":
         m = np.ones(inst["w"], dtype=bool)
         m[inst["u"]] = False
@@ -368,6 +380,15 @@ def _fix(points, scale):
             row.append(int(np.rint(w)) if np.isfinite(w) and abs(w) <= LIM else LIM + 1)
         out.append(row)
     return out
+
+
+def _exact_units(points, tau):
+    """Lattice integers of points that must be EXACTLY on the lattice (no tolerance)."""
+    a = np.asarray(points, dtype=float)
+    r = np.rint(a / tau)
+    if a.size and not (np.all(np.isfinite(a)) and np.array_equal(r * tau, a)):
+        raise exact.OffLattice(f"coordinates not exactly on the lattice of unit {tau}: {a[np.flatnonzero((r * tau != a).any(axis=-1))][:3]}")
+    return r.astype(np.int64).tolist()
 
 
 def _pow2_floor(x):
@@ -501,7 +522,7 @@ def record_for(inst):
     if api in ("reloc",) + STACKS:
         R = exact.to_int_exact(RMIN[inst["prof"]], scale=tau, what="radial minimum")
         S = (1024 if inst["prof"] == "VProfile" else 4096) // inst["m"]
-        rec.update({"R": R, "S": S, "pt": exact.to_int_exact(expected, scale=tau, what="coordinates"), "q": _fix(recv, S / tau)})
+        rec.update({"R": R, "S": S, "pt": _exact_units(expected, tau), "q": _fix(recv, S / tau)})
     return rec
 
 
@@ -559,7 +580,7 @@ def enumerate_instances(ctx, b):
         f"MCDepths == {_tla_set(str(d) for d in b['depths'])}",
         f"MCLattice == -{b['lattice']} .. {b['lattice']}",
     ])
-    res = ctx.tlc("Decorators", MC_CFG, defs=defs, tag="MC_Decorators", timeout=3000)
+    res = ctx.tlc("Decorators", MC_CFG, defs=defs, tag="MC_Decorators", timeout=3000, coverage=True)
     insts = res.by_kind("inst")
     want = expected_count(b)
     if len(insts) != want or res.distinct != 2 * want:
